@@ -51,6 +51,9 @@ def gen_config(R, rich):
         else:
             c["width"], c["height"] = [w, ""], [h, ""]
             c["size_as_text"] = R.random() < 0.3
+        if R.random() < 0.3:
+            # only one of the two is given by the caller
+            c.pop(R.choice(["width", "height"]))
     if R.random() < 0.5:
         fns = [GT.fn(R, R.choice(["translate", "scale", "rotate", "matrix", "skewx", "scale1"])) for _ in range(R.randint(1, 2))]
         c["transform"], c["tftext"] = fns, GT.spell_list(R, fns)
@@ -71,9 +74,11 @@ def gen_case(R, index, tier):
         opts.update(units=0.2, percent=0.15, nested_svg=0.35, use=0.5, depth=7 if deep else 4, max_children=3)
     doc = GD.generate(R, opts)
     cfg = gen_config(R, st == "config")
-    if st == "config" and "width" in cfg and R.random() < 0.5:
+    if st == "config" and ("width" in cfg or "height" in cfg) and R.random() < 0.5:
         # the outermost size comes from the caller
         for k in ("width", "height"):
+            if k not in cfg:
+                continue
             if R.random() < 0.7:
                 doc["geom"].pop(k, None)
             elif R.random() < 0.5:
